@@ -21,7 +21,7 @@ pub fn get(id: &str) -> Option<Box<dyn Prop>> {
         "C10" => Some(Box::new(pt_props::C10)),
         "C16" => Some(Box::new(c16::C16)),
         "C06" => Some(Box::new(c06::C06)),
-        "C07" | "C11" | "C12" | "C14" => Some(Box::new(train_props::TrainProp { which: match id { "C07" => "C07", "C11" => "C11", "C12" => "C12", _ => "C14" } })),
+        "C03" | "C07" | "C11" | "C12" | "C14" => Some(Box::new(train_props::TrainProp { which: match id { "C03" => "C03", "C07" => "C07", "C11" => "C11", "C12" => "C12", _ => "C14" } })),
         _ => None,
     }
 }
